@@ -56,6 +56,10 @@ def do_txn(ix, kind, compound):
     elif kind == "delete2":
         w.delete_by_term("key", u"k0")
         w.commit(merge=False)
+    elif kind == "delete2_cancel":
+        # marks a deletion on a segment and abandons the transaction
+        w.delete_by_term("key", u"k0")
+        w.cancel()
     elif kind == "delete_optimize":
         w.delete_by_term("key", u"k0")
         w.commit(optimize=True)
@@ -184,7 +188,9 @@ def one_run(cfg, prefix, expected):
             st = S.make_sched_storage(sch, d, lockreg, mutlog, supports_mmap=(cfg["storage"] == "file"))
             sch.state_fn = lambda: S.dir_digest(d)
         ix_w = build_initial(st, cfg["compound"], cfg.get("oneseg"))
-        ix_r = st.open_index()
+        # "shared": reader and writer come from ONE Index object (the usual
+        # way to use the library inside one process) instead of two
+        ix_r = ix_w if cfg.get("shared") else st.open_index()
         base_gen = ix_w.latest_generation()
         del mutlog[:]
 
@@ -369,6 +375,12 @@ def configs(tier):
     for tx in (["empty"], ["delete"], ["append"], ["empty", "delete"]):
         out.append({"name": "file:compound:oneseg:%s" % "+".join(tx), "storage": "file", "compound": True,
                     "txns": tx, "oneseg": True})
+    # reader and writer obtained from the same Index object: what a writer
+    # marks on its segments before (or without) committing must not leak
+    for storage in ("file", "ram"):
+        for tx in (["delete", "delete2"], ["delete", "delete2_cancel", "empty"], ["update"], ["delete", "append2"]):
+            out.append({"name": "%s:compound:shared:%s" % (storage, "+".join(tx)), "storage": storage,
+                        "compound": True, "txns": tx, "shared": True})
     return out
 
 
@@ -390,7 +402,8 @@ def run(ctx):
     ctx.extra["configs"] = len(tasks)
     ctx.rule = ("for each configuration (storage {file mmap, file no-mmap, RAM} x {compound, loose segments} x writer "
                 "history of 1-2 transactions from {append, optimize, delete-only, add+optimize, CLEAR, default merge, "
-                "update, delete+optimize}): a writer thread and a reader thread (searcher -> probe -> probe of lazily "
+                "update, delete+optimize, second delete on a segment, cancelled delete, empty commit}; reader and writer on "
+                "separate Index objects, or sharing one): a writer thread and a reader thread (searcher -> probe -> probe of lazily "
                 "opened parts -> up_to_date -> refresh -> probes -> fresh searcher -> probes) under every schedule with "
                 "<= B preemptions at storage-call granularity (iterative bounding, B=2 quick / 3 thorough, largest "
                 "completed bound reported); non-trivial = schedule deviating from the default")
